@@ -203,7 +203,7 @@ __CPROVER_requires(g_cb_room ==> !XML_STACK_FULL(node->parser))
 __CPROVER_assigns(node->processed, node->parser->doc.ptr, node->parser->doc.len, node->parser->error, node->parser->callback_stack.length)
 XML_SCRATCH_FRAME(node->parser)
 __CPROVER_assigns(__CPROVER_object_whole(node->parser->callback_stack.data))
-__CPROVER_assigns(g_cb_off, g_fx, g_mm, g_last_error, g_raise_count)
+__CPROVER_assigns(g_cb_off, g_name_off, g_an_off, g_av_off, g_fx, g_mm, g_last_error, g_raise_count)
 __CPROVER_ensures(RET != 0 ==> g_last_error != 0)
 __CPROVER_ensures(XML_ERR_OK(node->parser) && XML_STACK_HDR_OK(node->parser))
 XML_ENS_DOC(XF_CB, node->parser)
